@@ -13,13 +13,15 @@
    Recorded exceptions (the statement is FALSE of the code; `_refuted` theorems + replays):
      * linearity: tests q(f a b) == g (q b) (q a)           (known_findings.d/C09.txt)
      * ConfidenceScore: binary64 `*` is not associative
-   Not proved (correspondence check only): FuzzyLogic ([0,1], max, min) semiring laws over
-   all binary64 values in [0,1] -- needs the FloatAxioms order specification;
-   ConfidenceScore's remaining laws likewise. *)
+   FuzzyLogic is proved for all binary64 values in [0,1] from the standard library's
+   FloatAxioms specification of <?, <=?, =? (axioms ltb_spec, leb_spec, eqb_spec).
+   Not proved (correspondence check only): ConfidenceScore's laws other than the refuted one
+   (distributivity of binary64 `*` over max needs monotonicity of rounding). *)
 From Coq Require Import List Bool NArith Floats.
 From HV Require Import Algebra.Model Algebra.PBasic Algebra.PPower Algebra.PCheckers
-  Algebra.PSemiring Algebra.PMaster.
+  Algebra.PSemiring Algebra.PMaster Algebra.PFuzzy.
 Import ListNotations.
+Set Printing Width 400.   (* one line per assumption in the Print Assumptions output *)
 
 (* ------------------------------------------------------------------ cartesian_power *)
 Theorem C09_cartesian_power_complete : forall (A : Type) (n : nat) (items tup : list A),
@@ -261,3 +263,29 @@ Theorem C09_confidence_mul_assoc_refuted :
     ~ SrLaw SConfidence (XMul (XMul XA XB) XC, XMul XA (XMul XB XC)).
 Proof. exact confidence_mul_refuted. Qed.
 Print Assumptions C09_confidence_mul_assoc_refuted.
+
+(* Cost in a release build (no overflow checks): `a + b` in Cost::mul wraps modulo 2^32 and
+   left distributivity fails *)
+Theorem C09_cost_release_overflow_refuted :
+  exists a b c u v,
+    sr_eval_rel SCost a b c (XMul XA (XAdd XB XC)) = Some u /\
+    sr_eval_rel SCost a b c (XAdd (XMul XA XB) (XMul XA XC)) = Some v /\ u <> v.
+Proof. exact cost_release_left_dist_refuted. Qed.
+Print Assumptions C09_cost_release_overflow_refuted.
+
+(* FuzzyLogic ([0,1], max, min, 0, 1): for every value accepted by `FuzzyLogic::new`, both
+   sides of each of the eleven semiring laws are defined and equal for f64's `==` *)
+Theorem C09_fuzzy_semiring :
+  Forall (fun p : ex * ex =>
+            forall a b c : float, in01 a = true -> in01 b = true -> in01 c = true ->
+            exists u v,
+              sr_eval SFuzzy (VF a) (VF b) (VF c) (fst p) = Some (VF u) /\
+              sr_eval SFuzzy (VF a) (VF b) (VF c) (snd p) = Some (VF v) /\
+              PrimFloat.eqb u v = true)
+         semiring_law_pairs.
+Proof. exact fuzzy_semiring. Qed.
+Print Assumptions C09_fuzzy_semiring.
+
+Example C09_fuzzy_ex :
+  sr_eval SFuzzy (VF 0x1p-1) (VF 0x1p-2) (VF 1) (XMul XA (XAdd XB XC)) = Some (VF 0x1p-1).
+Proof. vm_compute. reflexivity. Qed.
